@@ -230,7 +230,7 @@ def plan_c11(tier, seed):
     hs += [H('dec_pointwise_422_4x1_u8', bounded=B, domain='8 symbolic u8 samples', desc='real ycbcr_to_ypbpr: pixel (x,y) from Y(x,y), U/V(x>>1,y)'),
            H('dec_pointwise_420_4x2_u8', bounded=B, domain='12 symbolic u8 samples', desc='real ycbcr_to_ypbpr: pixel (x,y) from Y(x,y), U/V(x>>1,y>>1)')]
     if tier == 'thorough':
-        hs += [H(f'enc_blocks_{g}', bounded=B, domain='all pixel components symbolic in [-0.25,1.25]', desc=f'same with symbolic contents ({d})') for g, d in geos]
+        hs += [H(f'enc_blocks_{g}', timeout=2400, bounded='optional (6-9 min and several GB each; per-harness timeout, a missing verdict is recorded, not an alarm): ' + B, domain='all pixel components symbolic in [-0.25,1.25]', desc=f'same with symbolic contents ({d})') for g, d in geos]
     PW = 'public conversion API on a 5x1 / 1x5 image with FIXED pairwise different pixels, compared bit for bit with the 1x1 conversions of its pixels'
     pw = [H('pw_lrgb_to_hsl_5x1_fixed', fixed=True, bounded=PW, domain='one fixed image', desc='LinearRgb -> Hsl loop: pointwise, dims kept'),
           H('pw_hsl_to_lrgb_1x5_fixed', fixed=True, bounded=PW, domain='one fixed image', desc='Hsl -> LinearRgb loop: pointwise, dims kept'),
